@@ -16,7 +16,16 @@ RULE = ("kinds: direct (random screen of single-sample plates built with the rea
         "eligible plate win while non-eligible plates may score lower; some plates already observed; a third of them again with "
         "NaN / +inf / 1.7e308 scores on every allowed plate, implementation-side predicate only); state (arbitrary, "
         "mostly unreachable (batch, remaining) splits in shuffled order incl. several incomplete samples, over-full samples "
-        "and multi-sample plates).  Non-trivial: at least one plate; distinct by canonical case description.")
+        "and multi-sample plates).  Non-trivial: at least one plate; distinct by canonical case description.  "
+        "ADDED (gap review g5): a quarter of the select histories run on an EVOLVING screen - the chosen plate is revealed with the real "
+        "Screen.set_observed before the next call (after every step = the retrospective pipeline, or after random steps), compared with the "
+        "model's history_select_reveal (wire op 4); in those, two fifths of the multi-row unobserved plates are HALF observed (set_observed on a "
+        "strict subset of their rows: they count as unobserved, Plate.is_observed = all rows), and the clauses are judged a second time against "
+        "the batch ids and the unobserved plates the harness itself knows (not only against what the policy was handed); select-cli (the command "
+        "batchie.cli.select_next_plate.main run in-process on a saved screen and 1-2 saved score chunks with --policy KPerSamplePlatePolicy "
+        "--policy-param k=<k> --batch-plate-id <ids...>, the class found by the command's own introspection; what the policy object was handed "
+        "and its k are observed by wrapping the class method; the pick is read from --output; the screen is revealed and re-saved between calls "
+        "in two thirds of them); a few select histories in which no allowed plate has a score (correspondence only: the model's Err 2).")
 THEOREMS = {
     "C16_model_is_source": "the hand-written model filter_eligible equals, for all inputs, the Gallina translation of the whole method filter_eligible_plates regenerated from /repo's current source on this run (Generated/SrcPolicy.v)",
     "C16_model_is_source_select_next_plate": "the Gallina translation (C16 vocabulary) of the whole function scoring/main.py select_next_plate regenerated from /repo on this run (Generated/SrcScoringPolicy.v), called with KPerSamplePlatePolicy(k), equals for all inputs the model select_next (hence its arguments to the policy are select_args); the code returns the Plate screen.get_plate(chosen id) after reading its name, the model the eligible ids and the chosen id",
@@ -33,9 +42,18 @@ THEOREMS = {
     "C16_select_next_is_a_step": "what select_next_plate passes to the policy and returns is one step of a selection history (returned plate is eligible, unobserved, not in the batch)",
     "C16_select_next_reachable": "every state produced by iterating select_next_plate from the empty batch is a reachable state of the history relation",
 }
+THEOREMS.update({
+    "C16_select_args_reveal_invariant": "revealing (observing) a plate whose id is in the batch ids changes neither the batch plates nor the unobserved-not-in-batch plates that select_next_plate hands to the policy",
+    "C16_select_next_reveal_invariant": "select_next_plate gives the same answer on the screen with any plates of the batch revealed",
+    "C16_evolving_history_is_history": "a selection history over a screen that evolves by revealing plates already in the batch between two calls (what the retrospective pipeline does) is a history over the first screen, and the policy is handed the same lists at every point",
+    "C16_select_next_reachable_evolving": "every state visited by iterating select_next_plate over such an evolving screen is a reachable state of the history relation (so every clause proved for reachable states holds along it)",
+    "C16_history_reveal_is_history": "the executable history with reveals between the calls (wire op 4, compared with the implementation) equals the history on the fixed screen",
+})
 ASSUMPTIONS = [
+    "within a batch the only plates that become observed are plates already in the batch (the retrospective pipeline reveals the pick; C16_evolving_history_is_history); an unobserved plate outside the batch does not become observed",
+    "'unobserved plate' = a plate with at least one unobserved row (Plate.is_observed = all rows observed).  Screen.__init__ and load_h5 refuse a plate with a mixture of observed and unobserved rows (C12), so a half-observed plate exists only in memory after set_observed on part of a plate; it is then offered to the policy and may be allowed",
+    "how the batch ids travel between two invocations of the command (batchie.py --excludes, the nextflow modules' --batch-plate-id) is not part of this check (no .nf file is read); kind select-cli starts at the command line of select_next_plate",
     "plates are identified by plate id and the list of their rows' sample ids (what Plate.plate_id / Plate.sample_ids return); everything else in a Plate is irrelevant to the policy",
-    "within a batch, unobserved plates do not become observed (the only change between two policy calls is the chosen plate moving to the batch)",
     "scores cross the wire as integers (integer-valued floats in the ChunkedScoresHolder)",
 ]
 EXPLANATION = ("Tie to the code, two ways: (1) the whole method filter_eligible_plates is re-translated from /repo's current source on "
@@ -73,17 +91,28 @@ logging.getLogger("batchie").setLevel(logging.ERROR)
 # --------------------------------------------------------------------------- building real screens
 
 
-def build_screen(plates, observed=None):
-    """plates: list of lists of sample indices (one entry per row of the plate); returns a real Screen"""
+def build_screen(plates, observed=None, partial=None):
+    """plates: list of lists of sample indices (one entry per row of the plate); returns a real Screen.
+    partial[i] = r > 0: the first r rows of plate i are observed although the plate as a whole is not (r < number of rows)"""
     from batchie.data import Screen
 
-    sample_names, plate_names, mask = [], [], []
+    sample_names, plate_names, mask, part = [], [], [], []
     for i, rows in enumerate(plates):
-        for s in rows:
+        for j, s in enumerate(rows):
             sample_names.append("s%03d" % s)
             plate_names.append("p%03d" % i)
             mask.append(bool(observed[i]) if observed else False)
+            part.append(bool(partial and j < partial[i]))
     n = len(sample_names)
+    scr = _new_screen(Screen, n, mask, sample_names, plate_names)
+    if any(part):
+        # Screen.__init__ (and load_h5 through it) refuses a plate with a mixture of observed and unobserved rows; such a screen
+        # exists only in memory, after set_observed on part of a plate
+        scr.set_observed(np.array(part, dtype=bool), np.full(sum(part), 0.5))
+    return scr
+
+
+def _new_screen(Screen, n, mask, sample_names, plate_names):
     return Screen(
         observations=np.zeros(n, dtype=float),
         observation_mask=np.array(mask, dtype=bool),
@@ -171,6 +200,22 @@ def gen(rng, tier):
             yield dict(kind="select", k=k, plates=pl, observed=observed, choices=choices[:stop], sseed=rng.randrange(1 << 30))
             if len(pl) % 3 == 0:
                 yield dict(kind="select", k=k, plates=pl, observed=observed, choices=choices[:stop], sseed=rng.randrange(1 << 30), extreme=True)
+            # the screen evolves within the batch: the chosen plate is revealed before the next call (always = the retrospective
+            # pipeline; or at random steps); some plates arrive half observed
+            if i % 40 == 3:
+                yield dict(kind="select", k=k, plates=pl, observed=observed, choices=choices[:stop], sseed=rng.randrange(1 << 30), noscore=True)
+            if i % 4 == 1:
+                how = rng.choice(["all", "all", "random"])
+                flags = [True if how == "all" else rng.random() < 0.5 for _ in choices[:stop]]
+                partial = [rng.randint(1, len(rows) - 1) if (len(rows) > 1 and not o and rng.random() < 0.4) else 0 for rows, o in zip(pl, observed)]
+                yield dict(kind="select", k=k, plates=pl, observed=observed, choices=choices[:stop], sseed=rng.randrange(1 << 30), reveal=flags,
+                           partial=partial if any(partial) else None)
+    for i in range(24 if tier == "quick" else 400):
+        k = rng.choice([1, 2, 2, 3, 3, 4])
+        pl = _plates(rng)[:8]
+        choices = [rng.randrange(1 << 16) for _ in range(len(pl) + 1)]
+        yield dict(kind="select-cli", k=k, plates=pl, observed=[rng.random() < 0.2 for _ in pl], choices=choices[:rng.choice([len(pl) + 1, rng.randint(0, len(pl))])],
+                   sseed=rng.randrange(1 << 30), reveal=rng.choice([True, True, False]), split=rng.choice([1, 1, 2]))
     for _ in range(300 if tier == "quick" else 4000):
         k = rng.choice([1, 2, 2, 3, 3, 4])
         pl = _plates(rng)
@@ -257,10 +302,11 @@ def run(desc):
 
     pl = desc["plates"]
     observed = desc["observed"]
+    partial = desc.get("partial")
     if not pl:
         wire = [1, k, [], [], []] if kind == "direct" else [2, k, [], [], []]
         return dict(wire=wire, impl=[[]] if kind == "direct" else [], pred=None, features=[kind, "trivial"], cmp=cmp_result())
-    screen = build_screen(pl, observed)
+    screen = build_screen(pl, observed, partial)
     plates = screen.plates
     policy = make_policy(k)
     info = {int(p.plate_id): int(p.sample_ids[0]) for p in plates}
@@ -301,14 +347,19 @@ def run(desc):
             feats.append("observed-present")
         return dict(wire=[1, k, wire_b, wire_r, picks], impl=out, pred=pred, features=feats, cmp=cmp_result())
 
-    # kind == "select": through the real select_next_plate
+    # kind == "select" / "select-cli": through the real select_next_plate (called directly, or by the command select_next_plate
+    # with --policy KPerSamplePlatePolicy --policy-param k=<k> --batch-plate-id ...)
     from batchie.policies.k_per_sample import KPerSamplePlatePolicy
+
+    cli = kind == "select-cli"
+    seen_box = {}
 
     class Recording(KPerSamplePlatePolicy):
         def filter_eligible_plates(self, batch_plates, unobserved_plates, rng):
             self.seen = ([int(p.plate_id) for p in batch_plates], [int(p.plate_id) for p in unobserved_plates])
             res = super().filter_eligible_plates(batch_plates=batch_plates, unobserved_plates=unobserved_plates, rng=rng)
             self.result = [int(p.plate_id) for p in res]
+            seen_box["policy"] = self
             return res
 
     rec = Recording(k=k)
@@ -317,74 +368,167 @@ def run(desc):
     out, tables = [], []
     stopped_early = False
     all_ids = [int(p.plate_id) for p in plates]
-    unobs_ids = [int(p.plate_id) for p in plates if not p.is_observed]
-    for step in range(len(choices) + 1):
-        # what the policy would allow here (direct call on the arguments select_next_plate is specified to pass)
-        b_pl = [p for p in plates if int(p.plate_id) in batch_ids]
-        r_pl = sorted([p for p in plates if not p.is_observed and int(p.plate_id) not in batch_ids], key=lambda p: p.plate_id)
-        el = [int(p.plate_id) for p in policy.filter_eligible_plates(b_pl, r_pl, rng_stub)]
-        target = el[choices[step] % len(el)] if (el and step < len(choices)) else None
-        if el and target is None:
-            break
-        # scores: every unobserved plate not in the batch gets one (plus sometimes others); the target strictly wins among the eligible
-        scored = [i for i in unobs_ids if i not in batch_ids] + [i for i in all_ids if (i in batch_ids or i not in unobs_ids) and srng.random() < 0.3]
-        srng.shuffle(scored)
-        sc = {i: srng.randint(0, 9) for i in scored}
-        if target is not None:
-            sc[target] = min(sc[i] for i in el) - srng.choice([1, 1, 2])
-            for i in scored:  # ineligible plates may look better than every eligible one
-                if i not in el and srng.random() < 0.4:
-                    sc[i] = sc[target] - srng.randint(0, 5)
-        if desc.get("extreme"):
-            # every allowed plate scores NaN / +inf (a scorer that overflowed), the others stay finite: whatever is returned
-            # must still be an allowed plate
-            for i in el:
-                sc[i] = srng.choice([float("nan"), float("inf"), float("nan"), 1.7e308])
-            target = None
-        holder = ChunkedScoresHolder(size=len(scored))
-        for i in scored:
-            holder.add_score(i, float(sc[i]))
-        tables.append([[i, sc[i]] for i in scored])
-        rec.seen = rec.result = None
-        got = select_next_plate(scores=holder, screen=screen, policy=rec, batch_plate_ids=list(batch_ids), rng=rng_stub)
-        got_id = None if got is None else int(got.plate_id)
-        out.append([rec.result, [] if got_id is None else [got_id]])
-        b = [(i, info[i]) for i in rec.seen[0]]
-        r = [(i, info[i]) for i in rec.seen[1]]
-        want_r = [i for i in unobs_ids if i not in batch_ids]
-        if sorted(rec.seen[0]) != sorted(batch_ids) or rec.seen[1] != want_r:
-            pred = pred or "select_next_plate passed batch %r / remaining %r for batch ids %r, unobserved-not-in-batch %r" % (rec.seen[0], rec.seen[1], batch_ids, want_r)
-        pred = pred or check_state(k, b, r, rec.result)
-        if got_id is not None and got_id not in rec.result:
-            pred = pred or "select_next_plate returned plate %d which the policy did not allow (%r)" % (got_id, rec.result)
-        if got_id is None and rec.result:
-            pred = pred or "select_next_plate returned no plate although %r are allowed" % (rec.result,)
-        if target is not None and got_id != target:
-            pred = pred or "allowed plate %r has the strictly best score among the allowed but %r was returned" % (target, got_id)
-        cn = {}
-        for _, s in b:
-            cn[s] = cn.get(s, 0) + 1
-        inprog_flags.append(any(1 <= v < k for v in cn.values()))
-        if got_id is None:
-            stopped_early = bool(want_r)
-            break
-        batch_ids.append(got_id)
-    feats = _hist_features(k, [pl[i] for i in range(len(pl)) if not observed[i]], "select", inprog_flags, stopped_early)
+    # "unobserved plates" of the statement, decided by the harness from what it built: a plate is unobserved while at least one
+    # of its rows is (Plate.is_observed = all rows observed); fixed when the batch starts - the plates revealed on the way are in the batch
+    unobs_ids = [int(plates[i].plate_id) for i in range(len(pl)) if not observed[i]]
+    if [int(p.plate_id) for p in plates if not p.is_observed] != unobs_ids:
+        pred = "Plate.is_observed disagrees with 'every row of the plate is observed' on a freshly built screen"
+    wire_screen = [[wire_plate(plates[i]), bool(observed[i])] for i in range(len(pl))]
+    reveal = desc.get("reveal")
+    flags = (list(reveal) if isinstance(reveal, list) else [bool(reveal)] * len(choices))
+    flags = (flags + [False] * (len(choices) + 1))[:len(choices) + 1]
+    tmp = None
+    if cli:
+        import os
+        import shutil
+        import sys
+        import tempfile
+        from unittest import mock
+        from batchie.cli import select_next_plate as cli_mod
+        tmp = tempfile.mkdtemp(dir=common.WORK)
+    try:
+        for step in range(len(choices) + 1):
+            # what the policy would allow here (direct call on the arguments select_next_plate is specified to pass)
+            b_pl = [p for p in plates if int(p.plate_id) in batch_ids]
+            r_pl = sorted([p for p in plates if int(p.plate_id) in unobs_ids and int(p.plate_id) not in batch_ids], key=lambda p: p.plate_id)
+            el = [int(p.plate_id) for p in policy.filter_eligible_plates(b_pl, r_pl, rng_stub)]
+            target = el[choices[step] % len(el)] if (el and step < len(choices)) else None
+            if el and target is None:
+                break
+            # scores: every unobserved plate not in the batch gets one (plus sometimes others); the target strictly wins among the eligible
+            scored = [i for i in unobs_ids if i not in batch_ids] + [i for i in all_ids if (i in batch_ids or i not in unobs_ids) and srng.random() < 0.3]
+            srng.shuffle(scored)
+            sc = {i: srng.randint(0, 9) for i in scored}
+            if target is not None:
+                sc[target] = min(sc[i] for i in el) - srng.choice([1, 1, 2])
+                for i in scored:  # ineligible plates may look better than every eligible one
+                    if i not in el and srng.random() < 0.4:
+                        sc[i] = sc[target] - srng.randint(0, 5)
+            if desc.get("extreme"):
+                # every allowed plate scores NaN / +inf (a scorer that overflowed), the others stay finite: whatever is returned
+                # must still be an allowed plate
+                for i in el:
+                    sc[i] = srng.choice([float("nan"), float("inf"), float("nan"), 1.7e308])
+                target = None
+            if desc.get("noscore") and el:
+                # no allowed plate has a score (a score chunk left out): outside the statement, the model answers Err 2 (argmin of nothing)
+                scored = [i for i in scored if i not in el]
+                target = None
+            tables.append([[i, sc[i]] for i in scored])
+            if not cli:
+                holder = ChunkedScoresHolder(size=len(scored))
+                for i in scored:
+                    holder.add_score(i, float(sc[i]))
+                rec.seen = rec.result = None
+                if desc.get("noscore"):
+                    got = impl_call(lambda: select_next_plate(scores=holder, screen=screen, policy=rec, batch_plate_ids=list(batch_ids), rng=rng_stub))
+                    if isinstance(got, ImplError):
+                        out = got
+                        break
+                else:
+                    got = select_next_plate(scores=holder, screen=screen, policy=rec, batch_plate_ids=list(batch_ids), rng=rng_stub)
+                got_id = None if got is None else int(got.plate_id)
+                used = rec
+            else:
+                # the command: screen and score chunks on disk, the policy named on the command line
+                screen.save_h5(os.path.join(tmp, "screen.h5"))
+                parts = [scored[j::desc.get("split", 1)] for j in range(desc.get("split", 1))]
+                files = []
+                for j, part in enumerate(parts):
+                    hd_ = ChunkedScoresHolder(size=len(part))
+                    for i in part:
+                        hd_.add_score(i, float(sc[i]))
+                    hd_.save_h5(os.path.join(tmp, "scores%d.h5" % j))
+                    files.append(os.path.join(tmp, "scores%d.h5" % j))
+                argv = ["select_next_plate", "--data", os.path.join(tmp, "screen.h5"), "--scores"] + files + \
+                       ["--policy", "KPerSamplePlatePolicy", "--policy-param", "k=%d" % k, "--output", os.path.join(tmp, "out.txt")]
+                if batch_ids:
+                    argv += ["--batch-plate-id"] + [str(i) for i in batch_ids]
+                seen_box.clear()
+                if os.path.exists(os.path.join(tmp, "out.txt")):
+                    os.remove(os.path.join(tmp, "out.txt"))
+                # the class is found by the command itself from its name; its method is wrapped to see what it is handed
+                orig = KPerSamplePlatePolicy.filter_eligible_plates
+
+                def spy(self, batch_plates, unobserved_plates, rng):
+                    self.seen = ([int(p.plate_id) for p in batch_plates], [int(p.plate_id) for p in unobserved_plates])
+                    res = orig(self, batch_plates=batch_plates, unobserved_plates=unobserved_plates, rng=rng)
+                    self.result = [int(p.plate_id) for p in res]
+                    seen_box["policy"] = self
+                    return res
+
+                with mock.patch.object(sys, "argv", argv), mock.patch("batchie.log_config.configure_logging", lambda *a, **kw: None), \
+                        mock.patch.object(KPerSamplePlatePolicy, "filter_eligible_plates", spy):
+                    try:
+                        cli_mod.main()
+                    except (Exception, SystemExit) as e:      # single-sample plates, a declared policy, valid ids: nothing to refuse
+                        pred = pred or "the select_next_plate command failed on batch ids %r with k=%d: %s: %s" % (batch_ids, k, type(e).__name__, e)
+                        out.append(["raised", type(e).__name__])
+                        break
+                txt = open(os.path.join(tmp, "out.txt")).read().strip()
+                got_id = None if txt == "-1" else int(txt)
+                used = seen_box.get("policy")
+                if used is None:
+                    pred = pred or "the command did not consult the policy named by --policy"
+                    break
+                if used.k != k or type(used.k) is not int:
+                    pred = pred or "--policy-param k=%d built a policy with k = %r" % (k, used.k)
+            out.append([used.result, [] if got_id is None else [got_id]])
+            b = [(i, info[i]) for i in used.seen[0]]
+            r = [(i, info[i]) for i in used.seen[1]]
+            want_r = [i for i in unobs_ids if i not in batch_ids]
+            if sorted(used.seen[0]) != sorted(batch_ids) or used.seen[1] != want_r:
+                pred = pred or "select_next_plate passed batch %r / remaining %r for batch ids %r, unobserved-not-in-batch %r" % (used.seen[0], used.seen[1], batch_ids, want_r)
+            pred = pred or check_state(k, b, r, used.result)
+            # the clauses again on what the harness itself knows to be the batch and the unobserved plates (not on what was passed)
+            pred = pred or check_state(k, [(i, info[i]) for i in batch_ids], [(i, info[i]) for i in want_r], used.result)
+            if got_id is not None and got_id not in used.result:
+                pred = pred or "select_next_plate returned plate %d which the policy did not allow (%r)" % (got_id, used.result)
+            if got_id is None and used.result:
+                pred = pred or "select_next_plate returned no plate although %r are allowed" % (used.result,)
+            if target is not None and got_id != target:
+                pred = pred or "allowed plate %r has the strictly best score among the allowed but %r was returned" % (target, got_id)
+            cn = {}
+            for _, s in b:
+                cn[s] = cn.get(s, 0) + 1
+            inprog_flags.append(any(1 <= v < k for v in cn.values()))
+            if got_id is None:
+                stopped_early = bool(want_r)
+                break
+            batch_ids.append(got_id)
+            if flags[step]:
+                # the retrospective pipeline reveals the chosen plate before the next call
+                rows = np.asarray(screen.plate_ids == got_id)
+                screen.set_observed(rows, np.full(int(rows.sum()), 0.5))
+    finally:
+        if tmp is not None:
+            shutil.rmtree(tmp, ignore_errors=True)
+    feats = _hist_features(k, [pl[i] for i in range(len(pl)) if not observed[i]], kind, inprog_flags, stopped_early)
     if any(observed):
         feats.append("observed-present")
-    wire_screen = [[wire_plate(p), bool(p.is_observed)] for p in plates]
+    if desc.get("noscore"):
+        feats.append("no-allowed-plate-scored")
+    if not isinstance(out, ImplError) and any(flags[:max(len(out) - 1, 0)]):
+        feats.append("pick-revealed-before-next-call")
+    if partial and any(partial):
+        feats.append("partially-observed-plate")
     if desc.get("extreme"):      # NaN / inf scores are outside the model's integer scores: implementation-side predicate only
         return dict(wire=None, impl=None, pred=pred, features=feats + ["allowed-plates-score-nan-or-inf"])
-    return dict(wire=[2, k, wire_screen, [], tables], impl=out, pred=pred, features=feats, cmp=cmp_result())
+    if reveal is None and not cli:
+        return dict(wire=[2, k, wire_screen, [], tables], impl=out, pred=pred, features=feats, cmp=cmp_result())
+    return dict(wire=[4, k, wire_screen, [], tables, [bool(f) for f in flags[:len(tables)]]], impl=out, pred=pred, features=feats, cmp=cmp_result())
 
 
 def shrink(desc):
-    if desc["kind"] in ("direct", "select"):
+    if desc["kind"] in ("direct", "select", "select-cli"):
         c = desc["choices"]
         if c:
             yield dict(desc, choices=c[:-1])
         for i in range(len(desc["plates"])):
-            yield dict(desc, plates=desc["plates"][:i] + desc["plates"][i + 1:], observed=desc["observed"][:i] + desc["observed"][i + 1:])
+            d2 = dict(desc, plates=desc["plates"][:i] + desc["plates"][i + 1:], observed=desc["observed"][:i] + desc["observed"][i + 1:])
+            if desc.get("partial"):
+                d2["partial"] = desc["partial"][:i] + desc["partial"][i + 1:]
+            yield d2
     if desc["kind"] == "state":
         n = len(desc["plates"])
         for i in range(n):
